@@ -336,21 +336,21 @@ type c05Fixture struct {
 	// validAtPassed: the handler asked the verifier to judge the presentation at another moment than now
 	validAtPassed bool
 	targets       []string
-	aud      string
-	w        Wrapper
-	st       *c05Store
-	rep      *c05Reporter
-	ctrl     *gomock.Controller
-	auth     *auth.MockAuthenticationServices
-	policy   *policy.MockPDPBackend
-	verifier *verifier.MockVerifier
-	vcIssuer *issuer.MockIssuer
-	wallet   *holder.MockWallet
-	iamCl    *iam.MockClient
-	subjects *didsubject.MockManager
-	signer   *cryptoNuts.MockJWTSigner
-	keys     *resolver.MockKeyResolver
-	jar      *MockJAR
+	aud           string
+	w             Wrapper
+	st            *c05Store
+	rep           *c05Reporter
+	ctrl          *gomock.Controller
+	auth          *auth.MockAuthenticationServices
+	policy        *policy.MockPDPBackend
+	verifier      *verifier.MockVerifier
+	vcIssuer      *issuer.MockIssuer
+	wallet        *holder.MockWallet
+	iamCl         *iam.MockClient
+	subjects      *didsubject.MockManager
+	signer        *cryptoNuts.MockJWTSigner
+	keys          *resolver.MockKeyResolver
+	jar           *MockJAR
 }
 
 var c05VerifierDID = did.MustParseDID("did:web:example.com:iam:verifier")
